@@ -480,7 +480,7 @@ func writeEvidence(pc *propCfg, id, tier string, seed uint64, agg *runner.Result
 		"rule":                pc.rule,
 		"samples":             agg.Samples,
 		"nontrivial_runs":     agg.NonTrivial,
-		"inconclusive_runs":   agg.Inconcl,
+		"diagnostics":         map[string]any{"inconclusive_runs": agg.Inconcl},
 		"scheduler_steps":     agg.Steps,
 		"simulated_seconds":   float64(agg.SimNanos) / 1e9,
 		"runs_per_hour":       int(float64(agg.Runs) / max(wall, 0.001) * 3600),
